@@ -1653,31 +1653,37 @@ class MeshRegion:
         region.poloidal_distance.xlow = 0.0
         region.poloidal_distance.corners = 0.0
 
-        # Initialise so that distance counts from the lower wall (for SOL/PFR) or wall
-        # (for core)
-        for i in range(self.nx):
-            c = region.contours[2 * i + 1]
-            # Cell-centre points
-            region.poloidal_distance.centre[i, :] -= c.get_distance(
-                psi=self.meshParent.equilibrium.psi
-            )[c.startInd]
-            # ylow points
-            region.poloidal_distance.ylow[i, :] -= c.get_distance(
-                psi=self.meshParent.equilibrium.psi
-            )[c.startInd]
-        for i in range(self.nx + 1):
-            c = region.contours[2 * i]
-            # Cell-centre points
-            region.poloidal_distance.xlow[i, :] -= c.get_distance(
-                psi=self.meshParent.equilibrium.psi
-            )[c.startInd]
-            # ylow points
-            region.poloidal_distance.corners[i, :] -= c.get_distance(
-                psi=self.meshParent.equilibrium.psi
-            )[c.startInd]
+        def subtract_start_distance(region):
+            # Distances along a contour are measured along its FineContour, which may
+            # start before the contour does (and the contour may start before the lower
+            # wall if there are boundary guard cells). Subtract the distance at the
+            # start of the contour, so that distance counts from the lower wall (for
+            # SOL/PFR), or is continuous with the region below.
+            for i in range(self.nx):
+                c = region.contours[2 * i + 1]
+                # Cell-centre points
+                region.poloidal_distance.centre[i, :] -= c.get_distance(
+                    psi=self.meshParent.equilibrium.psi
+                )[c.startInd]
+                # ylow points
+                region.poloidal_distance.ylow[i, :] -= c.get_distance(
+                    psi=self.meshParent.equilibrium.psi
+                )[c.startInd]
+            for i in range(self.nx + 1):
+                c = region.contours[2 * i]
+                # Cell-centre points
+                region.poloidal_distance.xlow[i, :] -= c.get_distance(
+                    psi=self.meshParent.equilibrium.psi
+                )[c.startInd]
+                # ylow points
+                region.poloidal_distance.corners[i, :] -= c.get_distance(
+                    psi=self.meshParent.equilibrium.psi
+                )[c.startInd]
 
         # Get distances from contours
         while True:
+            subtract_start_distance(region)
+
             for i in range(self.nx):
                 c = region.contours[2 * i + 1]
                 # Cell-centre points
